@@ -1190,7 +1190,7 @@ macro_rules! agent_spec {
     };
 }
 
-agent_spec!(C01, "C01", run_c01, "exploration", 20_000, 1_000_000, PLAN_CASES_PER_POLICY * PLAN_CASES_PER_POLICY,
+agent_spec!(C01, "C01", run_c01, "exploration", 20_000, 500_000, PLAN_CASES_PER_POLICY * PLAN_CASES_PER_POLICY,
     "enumerated (8100 cases): for two policies at once (one with XML metacharacters in its name), every pair of {absent, installed with any subset of a 2+1 range universe} x {not a candidate, evaluation failed, evaluated to any subset} through the real reader -> compare -> update writer, applied to the router model: convergence, no stale policy, untouched on failure, read-back, idempotence. seeded: a history of 1-4 (thorough: 1-6) consecutive real agent runs against one FakeJunos + FakeIrrd, starting from an empty ephemeral instance; between runs the world mutates (routes appear/disappear, a family of an AS vanishes, set membership changes, policies lose the annotation / are deactivated / removed / renamed / get a new expression / are added); policy names occasionally contain XML metacharacters, quotes and non-ASCII; seeded virtual delays on every send and reply, seeded hash order, seeded IRR read segmentation; one run in four meets a NETCONF fault at a seeded request position (it may fail, but if it reports success it must have converged); one fault-free run in 60 is made end to end by the agent executable (child process in one-shot mode with the options a user would give: --ephemeral-db, --irrd-host/port, remote --netconf-host/port, certificate paths, --tls-server-name) against FakeJunos behind a real TLS listener and FakeIrrd on a loopback TCP socket - its exit status is the run's result. After every successful run: committed accept-set per family == reference set, final reject, no stale policy, read-back through the agent's own reader; finally one more run with unchanged inputs must succeed and change nothing. Non-trivial = at least one load-configuration was sent; distinct = distinct event-log hash", COMPONENTS_C01);
 agent_spec!(C02, "C02", run_c02, "exploration", 20_000, 1_000_000, PLAN_CASES_PER_POLICY * PLAN_CASES_PER_POLICY,
     "enumerated: the 8100 (installed, evaluated) cases of C01, each planned update applied on its own to the fetched state. seeded: the C01 histories, one run in three with a NETCONF fault injected at a seeded request position (so that runs abort after any prefix of the update sequence); the oracle is evaluated on the model's working copy after every single load-configuration: every accepting term is restricted to inet or inet6, has at least one route-filter, all its route-filters belong to the reference set of that family, the policy ends in reject; element paths of every payload stay below configuration/policy-options/policy-statement; only the six expected operations are used and exactly the configured ephemeral instance is opened");
